@@ -653,4 +653,32 @@ def rule_lookup(ctx):
     ctx.borrow(rule_same, {"C04.SAME": "C02.LOOKUP"})
 
 
-RULES = [rule_res, rule_sink, rule_cwd, rule_only, rule_memo, rule_lookup]
+def rule_home(ctx):
+    p = ctx.p
+    ctx.rule("C02.HOME", "the home directory every session starts in is a PurePosixPath built from the configured value (the resolver's arithmetic and the absoluteness test are POSIX-flavoured)")
+    ui = p.method("User", "__init__")
+    stores = [s_ for s_, t in attr_stores(ui, "home_path", nested=False) if isinstance(s_, ast.Assign)]
+    if not stores:
+        raise AnalysisError("anchor=User.home_path store not found")
+    for st in stores:
+        v = st.value
+
+        def posix(e, depth=3):
+            if isinstance(e, ast.Call) and (dotted(e.func) or "").split(".")[-1] == "PurePosixPath":
+                return True
+            if isinstance(e, ast.Name) and depth > 0:
+                ds = local_defs(ui, e.id)
+                return bool(ds) and all(k == "assign" and posix(d_, depth - 1) for k, d_, _ in ds)
+            return False
+        ctx.ob("C02.HOME", st, "User.home_path is PurePosixPath(<configured value>) whatever was passed", posix(v),
+               f"User.home_path can keep the flavour of the value passed in (`{src(v)[:40]}`): a PureWindowsPath home passes its own is_absolute() test and becomes the working directory - "
+               "PWD reports 'C:\\home', a backslash in an argument becomes a separator and a drive-like argument replaces the whole path", construct="home:flavour")
+
+
+def rule_listed_dir(ctx):
+    from .c18 import rule_listed
+    ctx.rule("C02.LISTED", "a listing shows the directory that was resolved and looked up, not what its name matches as a pattern (shared with C18.FS)")
+    rule_listed(ctx, "C02.LISTED")
+
+
+RULES = [rule_res, rule_sink, rule_cwd, rule_only, rule_memo, rule_lookup, rule_home, rule_listed_dir]
